@@ -45,10 +45,10 @@ int main(int argc, char** argv) {
   }
   // complex keys through the comparator class
   {
-    typedef std::complex<double> C; C z[6] = {C(1, 2), C(1, -2), C(-3, 0), C(0, 0), C(0, 1), C(2, 2)};
-    #define CK(RULE, EXPR) { SortEigenvalue<C, SortRule::RULE> s(z, 6); std::vector<Index> id = s.index(); \
-      std::vector<int> seen(6, 0); for (int i = 0; i < 6; i++) { if (id[i] < 0 || id[i] > 5 || seen[id[i]]++) { if (fails++ == 0) printf("REPRODUCED complex not-a-permutation " #RULE "\n"); break; } } \
-      for (int i = 0; i + 1 < 6; i++) { C x = z[id[i]], y = z[id[i + 1]]; if (EXPR) { if (fails++ == 0) printf("REPRODUCED complex not-ordered " #RULE "\n"); break; } } }
+    typedef std::complex<double> C; C z[8] = {C(1, 2), C(1, -2), C(-3, 0), C(0, 0), C(0, 1), C(2, 2), C(1, -1), C(2.5, -2)};   /* incl. neighbours with opposite imaginary parts that are NOT conjugates */
+    #define CK(RULE, EXPR) { SortEigenvalue<C, SortRule::RULE> s(z, 8); std::vector<Index> id = s.index(); \
+      std::vector<int> seen(8, 0); for (int i = 0; i < 8; i++) { if (id[i] < 0 || id[i] > 7 || seen[id[i]]++) { if (fails++ == 0) printf("REPRODUCED complex not-a-permutation " #RULE "\n"); break; } } \
+      for (int i = 0; i + 1 < 8; i++) { C x = z[id[i]], y = z[id[i + 1]]; if (EXPR) { if (fails++ == 0) printf("REPRODUCED complex not-ordered " #RULE "\n"); break; } } }
     CK(LargestMagn, std::abs(y) > std::abs(x)) CK(SmallestMagn, std::abs(y) < std::abs(x))
     CK(LargestReal, y.real() > x.real()) CK(SmallestReal, y.real() < x.real())
     CK(LargestImag, std::abs(y.imag()) > std::abs(x.imag())) CK(SmallestImag, std::abs(y.imag()) < std::abs(x.imag()))
